@@ -23,6 +23,7 @@ import ast
 
 from .. import cfg, docs
 from .. import configfacts as CF
+from .. import inline
 from ..facts import UNKNOWN, call_name, dotted, norm
 from ..linters import ABSTRACT_BASES, Linters
 from ..util import exc_ancestors, func_paths, handler_names, handlers_covering, is_caught
@@ -493,21 +494,23 @@ def _k7(run, ctx, L, K7):
 def _k8(run, ctx, K8):
     repo = ctx.repo
     oi = repo.func(f"{ORCH}.Orchestrator.__init__")
-    names_o = [n.value for n in ast.walk(oi.node) if isinstance(n, ast.Constant) and isinstance(n.value, str) and n.value.startswith(".thailint.")]
+    # file names in evaluation order, in __init__ itself or in a private helper it calls (flattened view keeps source order per body)
+    names_o = [n.value for n in inline.flat_nodes(repo, oi) if isinstance(n, ast.Constant) and isinstance(n.value, str) and n.value.startswith(".thailint.")]
     rp = repo.func("src.api.Linter._resolve_config_path")
-    names_a = [n.value for n in ast.walk(rp.node) if isinstance(n, ast.Constant) and isinstance(n.value, str) and n.value.startswith(".thailint.")]
+    names_a = [n.value for n in inline.flat_nodes(repo, rp) if isinstance(n, ast.Constant) and isinstance(n.value, str) and n.value.startswith(".thailint.")]
     want = [".thailint.yaml", ".thailint.json"]
     (run.ok(K8, "Orchestrator.__init__ order", "yaml then json") if names_o == want else run.finding(K8, "Orchestrator.__init__", f"order:{names_o}", f"config discovery order is {names_o}, documented precedence is yaml then json then pyproject", oi.loc))
     (run.ok(K8, "Linter._resolve_config_path order", "yaml then json") if names_a == want else run.finding(K8, "Linter._resolve_config_path", f"order:{names_a}", f"library discovery order is {names_a}", rp.loc))
     lc = repo.func("src.linter_config.loader.load_config")
     ok = any(isinstance(n, ast.Call) and call_name(n) == "parse_pyproject_toml" for n in ast.walk(lc.node)) and any(isinstance(n, ast.Constant) and n.value == "pyproject.toml" for n in ast.walk(lc.node))
     (run.ok(K8, "load_config pyproject fallback", "parse_pyproject_toml(<dir>/pyproject.toml) when the file is absent") if ok else run.finding(K8, "load_config", "no-pyproject", "no pyproject.toml [tool.thailint] fallback", lc.loc))
+    nz = repo.func_by_role("src.core.config_parser._normalize_config_keys", "replaces '-' by '_' in the top-level keys",
+                           lambda g: any(isinstance(n, ast.Call) and call_name(n) == "replace" and [repo.fold(g.module, a) for a in n.args] == ["-", "_"] for n in ast.walk(g.node)))
     for fn in ("parse_config_file", "parse_pyproject_toml"):
         f = repo.func(f"src.core.config_parser.{fn}")
         rets = [n for n in ast.walk(f.node) if isinstance(n, ast.Return) and n.value is not None]
-        bad = [r for r in rets if not (isinstance(r.value, ast.Call) and call_name(r.value) == "_normalize_config_keys")]
-        (run.ok(K8, fn, "every return goes through _normalize_config_keys") if rets and not bad else run.finding(K8, fn, "unnormalised-return", f"{fn} can return a config dict that was not key-normalised: {norm(bad[0]) if bad else 'no return'}", f.loc))
-    nz = repo.func("src.core.config_parser._normalize_config_keys")
+        bad = [r for r in rets if not (isinstance(r.value, ast.Call) and call_name(r.value) == nz.name)]
+        (run.ok(K8, fn, f"every return goes through {nz.name}") if rets and not bad else run.finding(K8, fn, "unnormalised-return", f"{fn} can return a config dict that was not key-normalised: {norm(bad[0]) if bad else 'no return'}", f.loc))
     ok = any(isinstance(n, ast.Call) and call_name(n) == "replace" and [repo.fold(nz.module, a) for a in n.args] == ["-", "_"] for n in ast.walk(nz.node))
     (run.ok(K8, "_normalize_config_keys", "key.replace('-', '_')") if ok else run.finding(K8, "_normalize_config_keys", "replace", "top-level keys are no longer normalised '-' -> '_'", nz.loc))
     # every other reader of a user config file
